@@ -7,7 +7,7 @@ PROP = {
                     "Storage/WriteOnce.v", "Storage/WriteOnceProofs.v", "Storage/WriterStack.v", "Storage/WriterStackProofs.v"],
     "level": "proof",
     "engine": "E1-storage",
-    "harness_timeout": 1500,
+    "harness_timeout": 2700,
     "level_text": "Proof: a small-step persistence model (file names durable at the next directory sync, data complete at terminate, atomic replace = "
                   "pending rename, a crash keeps ANY subsequence of pending directory operations) and a boolean commit discipline over storage traces "
                   "(D1 publish only dir-synced terminated files, D2 commit returns only after the meta.json rename is durable, D3 never delete a file a "
